@@ -38,6 +38,68 @@ def structure3(fmt: str, eps: int):
     )
 
 
+def structure_b(fmt: str, eps: int):
+    """id (first), b = variable-size bytes (middle), m (last)."""
+    from sedpack.io.metadata import Attribute, DatasetStructure
+    return DatasetStructure(
+        saved_data_description=[
+            Attribute(name="id", dtype="int64", shape=(3,)),
+            Attribute(name="b", dtype="bytes", shape=()),
+            Attribute(name="m", dtype="int32", shape=(2, 2)),
+        ],
+        compression="",
+        examples_per_shard=eps,
+        shard_file_type=fmt,
+        hash_checksums_algorithms=("md5",),
+    ) if False else DatasetStructure(
+        saved_data_description=[
+            Attribute(name="id", dtype="int64", shape=(3,)),
+            Attribute(name="b", dtype="bytes", shape=()),
+            Attribute(name="m", dtype="int32", shape=(2, 2)),
+        ],
+        compression="",
+        examples_per_shard=eps,
+        shard_file_type=fmt,
+        hash_checksum_algorithms=("md5",),
+    )
+
+
+def values_b(validity: str, idt: tuple) -> dict:
+    """Values for structure_b: the interesting violations sit in the
+    attribute AFTER the variable-size one."""
+    ex = {"id": np.array(idt, dtype=np.int64),
+          "b": b"payload-" + bytes([65 + idt[2] % 26]) * (1 + idt[2]),
+          "m": np.array([[idt[2], 1], [2, 3]], dtype=np.int32)}
+    v = validity
+    if v == "ok":
+        pass
+    elif v == "shape2":  # wrong shape after the variable-size attribute
+        ex["m"] = np.zeros((2, 3), dtype=np.int32)
+    elif v == "rank2":  # same number of elements, other rank
+        ex["m"] = np.array([idt[2], 1, 2, 3], dtype=np.int32)
+    elif v == "shape0":
+        ex["id"] = np.array([1, 2, 3, 4], dtype=np.int64)
+    elif v == "missing2":
+        del ex["m"]
+    elif v == "bigbytes":
+        ex["b"] = bytes(range(256)) * 8
+    elif v == "emptybytes":
+        ex["b"] = b""
+    else:
+        raise ValueError(v)
+    return ex
+
+
+def decode_b(ex) -> tuple:
+    i = np.asarray(ex["id"]).astype(np.int64).reshape(-1)
+    m = np.asarray(ex["m"]).astype(np.int64)
+    if i.shape != (3,) or m.shape != (2, 2) or m[0, 0] != i[2]:
+        raise ValueError(f"decoded example id={i.tolist()} m={m.tolist()}")
+    b = ex["b"]
+    b = bytes(b) if not isinstance(b, np.ndarray) else bytes(b.item())
+    return (int(i[0]), int(i[1]), int(i[2]), b)
+
+
 def values_for(validity: str, idt: tuple) -> dict:
     ex = D.example(idt)
     ex["m"] = np.array([[idt[2], 1], [2, 3]], dtype=np.int32)
@@ -88,7 +150,7 @@ def decode3(ex) -> tuple:
     return idt
 
 
-STRICT = ("ok", "oklist")
+STRICT = ("ok", "oklist", "bigbytes", "emptybytes")
 
 
 def soft(ex):
@@ -115,10 +177,19 @@ def run_sequence(fmt: str, eps: int, seq: list, readers=("sync",)) -> dict:
     from sedpack.io import Dataset, Metadata
     root = core.fresh_dir("w")
     bad: list[tuple[str, str, str]] = []
+    with_bytes = fmt.endswith("+b")
+    fmt = fmt.split("+")[0]
+    vals_fn = values_b if with_bytes else values_for
+    global decode3
+    saved_decode = decode3
+    if with_bytes:
+        def decode3(ex, _d=decode_b):  # noqa: F811
+            return _d(ex)
     try:
-        dataset = Dataset.create(path=root,
-                                 metadata=Metadata(description="wseq"),
-                                 dataset_structure=structure3(fmt, eps))
+        dataset = Dataset.create(
+            path=root, metadata=Metadata(description="wseq"),
+            dataset_structure=(structure_b if with_bytes else structure3)(
+                fmt, eps))
         shared: dict = {"k": "init"}
         nested: dict = {"k": {"v": "init"}, "l": ["init", 1]}
         calls = []  # (idx, split, validity, meta value snapshot, accepted)
@@ -143,7 +214,7 @@ def run_sequence(fmt: str, eps: int, seq: list, readers=("sync",)) -> dict:
                     snap = json.loads(json.dumps(arg)) if arg else None
                     idt = (0, 0, i)
                     try:
-                        values = values_for(val, idt)
+                        values = vals_fn(val, idt)
                         filler.write_example(values=values,
                                              split=split,
                                              custom_metadata=arg)
@@ -324,6 +395,7 @@ def run_sequence(fmt: str, eps: int, seq: list, readers=("sync",)) -> dict:
                                 f"it: {members}"))
         return {"seq": seq, "violations": bad, "calls": calls}
     finally:
+        decode3 = saved_decode
         shutil.rmtree(root, ignore_errors=True)
 
 
